@@ -88,6 +88,27 @@ pub fn run_case(cx: &mut Ctx) {
     cx.part.count("hand_built_families", nf as u64);
     if cx.owns("C04") {
         text_roundtrip(cx, &mfs, &pmfs, "hand-built");
+        // error path: a refused family later in the slice. Whatever the encoder does with the families
+        // before it, it may only append, and the entry points must agree.
+        let mut bad = mfs.clone();
+        let pos = rng.usize_below(bad.len());
+        bad[pos].metrics.clear();
+        let pbad: Vec<prometheus::proto::MetricFamily> = bad.iter().map(build).collect();
+        let prefix = "# earlier scrape \u{1F600}\nm 1\n";
+        let mut v = prefix.as_bytes().to_vec();
+        let mut s = String::from(prefix);
+        let enc = prometheus::TextEncoder::new();
+        let r1 = enc.encode(&pbad, &mut v);
+        let r2 = enc.encode_utf8(&pbad, &mut s);
+        cx.part.count("text_error_paths_checked", 1);
+        let detail = jobj! {"families" => families_json(&bad), "refused_index" => pos};
+        if r1.is_ok() || r2.is_ok() {
+            cx.violation("text-family-without-samples-accepted", "error-path", format!("encode {:?}, encode_utf8 {:?}", r1.is_ok(), r2.is_ok()), detail);
+        } else if !v.starts_with(prefix.as_bytes()) || !s.starts_with(prefix) {
+            cx.violation("text-encoder-does-not-only-append", "error-path", format!("after a refused family the caller's buffer no longer starts with what it held before (Vec: {}, String: {})", v.starts_with(prefix.as_bytes()), s.starts_with(prefix)), detail);
+        } else if v != s.as_bytes() {
+            cx.violation("text-entry-points-disagree", "error-path", "encode and encode_utf8 leave different bytes behind when a family is refused".into(), detail);
+        }
     }
     if cx.owns("C13") {
         pb_roundtrip(cx, &mfs, &pmfs, "hand-built");
